@@ -51,12 +51,17 @@ fn one(it: &Item, layout: &str) -> (bool, crate::kit::panics::Verdict, Vec<Strin
     }
     if let Some((ph, oh)) = pair {
         match expected_hashes(&it.proof.public_input) {
-            Hashes::Pair(ep, eo) => {
-                if ep != ph {
-                    bad.push(format!("program hash {} differs from the by-address Pedersen chain {}", fhex(&ph), fhex(&ep)));
-                }
-                if eo != oh {
-                    bad.push(format!("output hash {} differs from the by-address Pedersen chain {}", fhex(&oh), fhex(&eo)));
+            Hashes::Pairs(ps) => {
+                if ps.len() != 1 {
+                    bad.push("honest main page is ambiguous by address".to_string());
+                } else {
+                    let (ep, eo) = ps[0];
+                    if ep != ph {
+                        bad.push(format!("program hash {} differs from the by-address Pedersen chain {}", fhex(&ph), fhex(&ep)));
+                    }
+                    if eo != oh {
+                        bad.push(format!("output hash {} differs from the by-address Pedersen chain {}", fhex(&oh), fhex(&eo)));
+                    }
                 }
             }
             Hashes::Malformed(why) => bad.push(format!("accepted although the main page is malformed: {}", why)),
